@@ -498,7 +498,7 @@ func (g *Gen) safeConj(b *sqlBucket, tags map[string]bool) []sqlConj {
 
 func genC20(g *Gen) {
 	nowYear := time.Now().UTC().Year()
-	n := g.N(240, 2400)
+	n := g.N(240, 1500)
 	for k := 0; k < n; k++ {
 		tags := map[string]bool{}
 		cols := g.sqlCols(1+g.Intn(4), false, tags)
